@@ -9,12 +9,15 @@ from props.devs_common import coq_case, nontrivial, op_kinds, run_impl  # noqa: 
 
 ID = "C14"
 COQ_PROPERTY_FILE = "Properties/C14.v"
-COQ_DEPS = ["Generated/Tables.v", "Model/Devs.v", "Model/DevsSpec.v", "Model/Heap.v", "Proofs/DevsProofs.v", "Proofs/DevsOrderProofs.v",
+COQ_DEPS = ["Generated/Tables.v", "Model/Devs.v", "Model/DevsSpec.v", "Model/Heap.v", "Model/DevsHeap.v", "Proofs/DevsProofs.v", "Proofs/DevsOrderProofs.v",
             "Proofs/DevsOnceProofs.v", "Proofs/DevsLiveProofs.v", "Proofs/DevsAtomicProofs.v", "Proofs/DevsChunkProofs.v",
-            "Proofs/DevsStepProofs.v", "Proofs/DevsTopProofs.v", "Proofs/DevsTop14Proofs.v", "Proofs/HeapProofs.v", "Proofs/DevsHeapProofs.v"]
+            "Proofs/DevsStepProofs.v", "Proofs/DevsTopProofs.v", "Proofs/DevsTop14Proofs.v", "Proofs/HeapProofs.v", "Proofs/DevsHeapProofs.v", "Proofs/DevsHeapSimProofs.v"]
 COQ_IMPORTS = "From Mesa Require Import Generated.Tables Model.Devs."
 COQ_CASE_TYPE = "case"
 COQ_RUN = "run_case"
+if D.HEAP_TIE:      # VERIF_HEAPQ_TIE=1 ./check C14: the model that keeps the heapq array, observations + array order
+    COQ_IMPORTS = "From Mesa Require Import Generated.Tables Model.Devs Model.DevsHeap."
+    COQ_RUN = "run_case_heap"
 TABLE_CONSTRUCTS = ["devs_priority_values", "devs_event_key", "devs_step_priority"]
 S = D.S
 
